@@ -5,261 +5,8 @@ use vstd::utf8::*;
 use std::convert::{TryFrom, TryInto};
 verus! {
 global size_of usize == 8;
-
-// =====================================================================================================
-// MODELS of external code (assumptions; rule R5)
-// =====================================================================================================
-pub struct BigEndian;
-#[derive(Debug)]
-pub struct IoError;
-#[derive(Debug)]
-pub struct Utf8Error;
-pub open spec fn be16(v: u16) -> Seq<u8> { seq![(v >> 8) as u8, (v & 0xff) as u8] }
-pub open spec fn be32(v: u32) -> Seq<u8> { seq![(v >> 24) as u8, ((v >> 16) & 0xff) as u8, ((v >> 8) & 0xff) as u8, (v & 0xff) as u8] }
-pub open spec fn be64(v: u64) -> Seq<u8> { be32((v >> 32) as u32) + be32((v & 0xffff_ffff) as u32) }
-/// model of `Box<dyn std::io::Write>` + byteorder::WriteBytesExt: an append-only byte sink; any write may fail
-pub struct Dest { pub bytes: Vec<u8> }
-impl Dest {
-    pub open spec fn view(&self) -> Seq<u8> { self.bytes@ }
-    #[verifier::external_body]
-    pub fn write_u8(&mut self, v: u8) -> (r: Result<(), IoError>)
-        ensures r is Ok ==> final(self)@ == old(self)@.push(v),
-    { self.bytes.push(v); Ok(()) }
-    #[verifier::external_body]
-    pub fn write_u16<E>(&mut self, v: u16) -> (r: Result<(), IoError>)
-        ensures r is Ok ==> final(self)@ == old(self)@ + be16(v),
-    { unimplemented!() }
-    #[verifier::external_body]
-    pub fn write_i16<E>(&mut self, v: i16) -> (r: Result<(), IoError>)
-        ensures r is Ok ==> final(self)@ == old(self)@ + be16(v as u16),
-    { unimplemented!() }
-    #[verifier::external_body]
-    pub fn write_i32<E>(&mut self, v: i32) -> (r: Result<(), IoError>)
-        ensures r is Ok ==> final(self)@ == old(self)@ + be32(v as u32),
-    { unimplemented!() }
-    #[verifier::external_body]
-    pub fn write_u64<E>(&mut self, v: u64) -> (r: Result<(), IoError>)
-        ensures r is Ok ==> final(self)@ == old(self)@ + be64(v),
-    { unimplemented!() }
-}
-/// strings: only their UTF-8 byte content matters
-pub open spec fn string_bytes(s: &String) -> Seq<u8> { encode_utf8(s@) }
-pub assume_specification [std::string::String::as_bytes] (s: &std::string::String) -> (r: &[u8]) ensures r@ == string_bytes(s);
-pub assume_specification [std::string::String::len] (s: &std::string::String) -> (r: usize) ensures r == string_bytes(s).len();
-/// GDSII real codec: contract of GdsFloat64::encode / ::decode (proved by the Kani unit gds_real, C15)
-pub uninterp spec fn gds_enc(x: f64) -> u64;
-pub uninterp spec fn gds_dec(v: u64) -> f64;
-pub struct GdsFloat64;
-impl GdsFloat64 {
-    #[verifier::external_body]
-    pub fn encode(val: f64) -> (r: u64) ensures r == gds_enc(val) { unimplemented!() }
-    #[verifier::external_body]
-    pub fn decode(val: u64) -> (r: f64) ensures r == gds_dec(val) { unimplemented!() }
-}
-
-//@ item gds21/src/data.rs :: enum GdsRecordType
-//@   derive Debug, Clone, Copy
-//@ end
-//@ item gds21/src/data.rs :: enum GdsDataType
-//@   derive Debug, Clone, Copy
-//@ end
-//@ item gds21/src/data.rs :: struct GdsRecordHeader
-//@   derive Debug, Clone, Copy
-//@ end
-//@ item gds21/src/data.rs :: enum GdsRecord
-//@ end
-//@ item gds21/src/data.rs :: enum GdsContext
-//@ end
-//@ item gds21/src/data.rs :: enum GdsError
-//@   sub R5 /Box<dyn Error>/ => Box<IoError>
-//@ end
-//@ item gds21/src/data.rs :: type GdsResult
-//@ end
-impl vstd::std_specs::convert::FromSpecImpl<IoError> for GdsError {
-    open spec fn obeys_from_spec() -> bool { true }
-    open spec fn from_spec(e: IoError) -> GdsError { GdsError::Boxed(Box::new(e)) }
-}
-impl From<IoError> for GdsError { fn from(e: IoError) -> Self { Self::Boxed(Box::new(e)) } }
-
-// =====================================================================================================
-// SPEC: the GDSII stream format (typed from the Stream Format manual, DESIGN.md appendix A) — independent of the code
-// =====================================================================================================
-pub open spec fn i16s_bytes(s: Seq<i16>) -> Seq<u8> decreases s.len() {
-    if s.len() == 0 { Seq::<u8>::empty() } else { i16s_bytes(s.drop_last()) + be16(s.last() as u16) }
-}
-pub open spec fn i32s_bytes(s: Seq<i32>) -> Seq<u8> decreases s.len() {
-    if s.len() == 0 { Seq::<u8>::empty() } else { i32s_bytes(s.drop_last()) + be32(s.last() as u32) }
-}
-/// ASCII string payload: NUL-padded to even length
-pub open spec fn padded(b: Seq<u8>) -> Seq<u8> { if b.len() % 2 == 0 { b } else { b.push(0u8) } }
-/// record number (hex column of the manual's table)
-pub open spec fn rec_num(r: GdsRecord) -> u8 {
-    match r {
-        GdsRecord::Header { .. } => 0x00, GdsRecord::BgnLib { .. } => 0x01, GdsRecord::LibName(_) => 0x02, GdsRecord::Units(_, _) => 0x03,
-        GdsRecord::EndLib => 0x04, GdsRecord::BgnStruct { .. } => 0x05, GdsRecord::StructName(_) => 0x06, GdsRecord::EndStruct => 0x07,
-        GdsRecord::Boundary => 0x08, GdsRecord::Path => 0x09, GdsRecord::StructRef => 0x0A, GdsRecord::ArrayRef => 0x0B, GdsRecord::Text => 0x0C,
-        GdsRecord::Layer(_) => 0x0D, GdsRecord::DataType(_) => 0x0E, GdsRecord::Width(_) => 0x0F, GdsRecord::Xy(_) => 0x10, GdsRecord::EndElement => 0x11,
-        GdsRecord::StructRefName(_) => 0x12, GdsRecord::ColRow { .. } => 0x13, GdsRecord::Node => 0x15, GdsRecord::TextType(_) => 0x16,
-        GdsRecord::Presentation(_, _) => 0x17, GdsRecord::String(_) => 0x19, GdsRecord::Strans(_, _) => 0x1A, GdsRecord::Mag(_) => 0x1B, GdsRecord::Angle(_) => 0x1C,
-        GdsRecord::RefLibs(_) => 0x1F, GdsRecord::Fonts(_) => 0x20, GdsRecord::PathType(_) => 0x21, GdsRecord::Generations(_) => 0x22, GdsRecord::AttrTable(_) => 0x23,
-        GdsRecord::ElemFlags(_, _) => 0x26, GdsRecord::Nodetype(_) => 0x2A, GdsRecord::PropAttr(_) => 0x2B, GdsRecord::PropValue(_) => 0x2C,
-        GdsRecord::Box => 0x2D, GdsRecord::BoxType(_) => 0x2E, GdsRecord::Plex(_) => 0x2F, GdsRecord::BeginExtn(_) => 0x30, GdsRecord::EndExtn(_) => 0x31,
-        GdsRecord::TapeNum(_) => 0x32, GdsRecord::TapeCode(_) => 0x33, GdsRecord::Format(_) => 0x36, GdsRecord::Mask(_) => 0x37, GdsRecord::EndMasks => 0x38,
-        GdsRecord::LibDirSize(_) => 0x39, GdsRecord::SrfName(_) => 0x3A, GdsRecord::LibSecur(_) => 0x3B,
-    }
-}
-/// data type code (0 none, 1 bit array, 2 i16, 3 i32, 5 eight-byte real, 6 string)
-pub open spec fn rec_dtype(r: GdsRecord) -> u8 {
-    match r {
-        GdsRecord::EndLib | GdsRecord::EndStruct | GdsRecord::Boundary | GdsRecord::Path | GdsRecord::StructRef | GdsRecord::ArrayRef | GdsRecord::Text
-        | GdsRecord::EndElement | GdsRecord::Node | GdsRecord::Box | GdsRecord::EndMasks => 0,
-        GdsRecord::Presentation(_, _) | GdsRecord::Strans(_, _) | GdsRecord::ElemFlags(_, _) => 1,
-        GdsRecord::Header { .. } | GdsRecord::BgnLib { .. } | GdsRecord::BgnStruct { .. } | GdsRecord::Layer(_) | GdsRecord::DataType(_) | GdsRecord::ColRow { .. }
-        | GdsRecord::TextType(_) | GdsRecord::PathType(_) | GdsRecord::Generations(_) | GdsRecord::Nodetype(_) | GdsRecord::PropAttr(_) | GdsRecord::BoxType(_)
-        | GdsRecord::TapeNum(_) | GdsRecord::TapeCode(_) | GdsRecord::Format(_) | GdsRecord::LibDirSize(_) | GdsRecord::LibSecur(_) => 2,
-        GdsRecord::Width(_) | GdsRecord::Xy(_) | GdsRecord::Plex(_) | GdsRecord::BeginExtn(_) | GdsRecord::EndExtn(_) => 3,
-        GdsRecord::Units(_, _) | GdsRecord::Mag(_) | GdsRecord::Angle(_) => 5,
-        GdsRecord::LibName(_) | GdsRecord::StructName(_) | GdsRecord::StructRefName(_) | GdsRecord::String(_) | GdsRecord::RefLibs(_) | GdsRecord::Fonts(_)
-        | GdsRecord::AttrTable(_) | GdsRecord::PropValue(_) | GdsRecord::Mask(_) | GdsRecord::SrfName(_) => 6,
-    }
-}
-/// payload bytes
-pub open spec fn payload(r: GdsRecord) -> Seq<u8> {
-    match r {
-        GdsRecord::EndLib | GdsRecord::EndStruct | GdsRecord::Boundary | GdsRecord::Path | GdsRecord::StructRef | GdsRecord::ArrayRef | GdsRecord::Text
-        | GdsRecord::EndElement | GdsRecord::Node | GdsRecord::Box | GdsRecord::EndMasks => Seq::<u8>::empty(),
-        GdsRecord::Presentation(a, b) | GdsRecord::Strans(a, b) | GdsRecord::ElemFlags(a, b) => seq![a, b],
-        GdsRecord::Header { version: d } | GdsRecord::Layer(d) | GdsRecord::DataType(d) | GdsRecord::TextType(d) | GdsRecord::PathType(d) | GdsRecord::Generations(d)
-        | GdsRecord::Nodetype(d) | GdsRecord::PropAttr(d) | GdsRecord::BoxType(d) | GdsRecord::TapeNum(d) | GdsRecord::Format(d) | GdsRecord::LibDirSize(d)
-        | GdsRecord::LibSecur(d) => be16(d as u16),
-        GdsRecord::BgnLib { dates: d } | GdsRecord::BgnStruct { dates: d } => i16s_bytes(d@),
-        GdsRecord::TapeCode(d) => i16s_bytes(d@),
-        GdsRecord::ColRow { cols, rows } => be16(cols as u16) + be16(rows as u16),
-        GdsRecord::Width(d) | GdsRecord::Plex(d) | GdsRecord::BeginExtn(d) | GdsRecord::EndExtn(d) => be32(d as u32),
-        GdsRecord::Xy(v) => i32s_bytes(v@),
-        GdsRecord::Mag(x) | GdsRecord::Angle(x) => be64(gds_enc(x)),
-        GdsRecord::Units(a, b) => be64(gds_enc(a)) + be64(gds_enc(b)),
-        GdsRecord::LibName(s) | GdsRecord::StructName(s) | GdsRecord::StructRefName(s) | GdsRecord::String(s) | GdsRecord::RefLibs(s) | GdsRecord::Fonts(s)
-        | GdsRecord::AttrTable(s) | GdsRecord::PropValue(s) | GdsRecord::Mask(s) | GdsRecord::SrfName(s) => padded(string_bytes(&s)),
-    }
-}
-/// the four header bytes: total length (big-endian, includes the header), record number, data type
-pub open spec fn header_bytes(r: GdsRecord) -> Seq<u8> { be16((payload(r).len() + 4) as u16) + seq![rec_num(r), rec_dtype(r)] }
-/// a record fits the format iff its total length fits 16 bits
-pub open spec fn fits(r: GdsRecord) -> bool { payload(r).len() + 4 <= 0xffff }
-
-/// the string carried by a string record
-pub open spec fn str_of(r: GdsRecord) -> Option<Seq<u8>> {
-    match r {
-        GdsRecord::LibName(s) | GdsRecord::StructName(s) | GdsRecord::StructRefName(s) | GdsRecord::String(s) | GdsRecord::RefLibs(s) | GdsRecord::Fonts(s)
-        | GdsRecord::AttrTable(s) | GdsRecord::PropValue(s) | GdsRecord::Mask(s) | GdsRecord::SrfName(s) => Some(string_bytes(&s)),
-        _ => None,
-    }
-}
-/// a string that ends in NUL cannot be told from its padding: the format cannot represent it
-pub open spec fn str_representable(r: GdsRecord) -> bool {
-    match str_of(r) { Some(b) => b.len() == 0 || b.last() != 0u8, None => true }
-}
-/// a record the writer must accept: total length fits 16 bits, string (if any) representable
-pub open spec fn writable(r: GdsRecord) -> bool { fits(r) && str_representable(r) }
-pub open spec fn rec_bytes(r: GdsRecord) -> Seq<u8> { header_bytes(r) + payload(r) }
-
-proof fn lemma_i16s_len(s: Seq<i16>) ensures i16s_bytes(s).len() == 2 * s.len() decreases s.len() { if s.len() > 0 { lemma_i16s_len(s.drop_last()); } }
-proof fn lemma_i32s_len(s: Seq<i32>) ensures i32s_bytes(s).len() == 4 * s.len() decreases s.len() { if s.len() > 0 { lemma_i32s_len(s.drop_last()); } }
-/// payload length per record, as plain numbers
-pub open spec fn payload_len(r: GdsRecord) -> int {
-    match r {
-        GdsRecord::EndLib | GdsRecord::EndStruct | GdsRecord::Boundary | GdsRecord::Path | GdsRecord::StructRef | GdsRecord::ArrayRef | GdsRecord::Text
-        | GdsRecord::EndElement | GdsRecord::Node | GdsRecord::Box | GdsRecord::EndMasks => 0int,
-        GdsRecord::BgnLib { .. } | GdsRecord::BgnStruct { .. } => 24,
-        GdsRecord::TapeCode(_) => 12,
-        GdsRecord::ColRow { .. } | GdsRecord::Width(_) | GdsRecord::Plex(_) | GdsRecord::BeginExtn(_) | GdsRecord::EndExtn(_) => 4,
-        GdsRecord::Xy(v) => 4 * (v@.len() as int),
-        GdsRecord::Mag(_) | GdsRecord::Angle(_) => 8,
-        GdsRecord::Units(_, _) => 16,
-        GdsRecord::LibName(s) | GdsRecord::StructName(s) | GdsRecord::StructRefName(s) | GdsRecord::String(s) | GdsRecord::RefLibs(s) | GdsRecord::Fonts(s)
-        | GdsRecord::AttrTable(s) | GdsRecord::PropValue(s) | GdsRecord::Mask(s) | GdsRecord::SrfName(s) => (string_bytes(&s).len() + string_bytes(&s).len() % 2) as int,
-        _ => 2,
-    }
-}
-/// C02: every record's payload has even length, so the length field is even and >= 4
-proof fn lemma_payload_len(r: GdsRecord) ensures payload(r).len() == payload_len(r), payload(r).len() % 2 == 0, rec_bytes(r).len() == 4 + payload(r).len(),
-{
-    match r {
-        GdsRecord::BgnLib { dates: d } => { lemma_i16s_len(d@); }
-        GdsRecord::BgnStruct { dates: d } => { lemma_i16s_len(d@); }
-        GdsRecord::TapeCode(d) => { lemma_i16s_len(d@); }
-        GdsRecord::Xy(v) => { lemma_i32s_len(v@); }
-        GdsRecord::Units(a, b) => { assert(be64(gds_enc(a)).len() == 8); assert(be64(gds_enc(b)).len() == 8); }
-        GdsRecord::Mag(a) => { assert(be64(gds_enc(a)).len() == 8); }
-        GdsRecord::Angle(a) => { assert(be64(gds_enc(a)).len() == 8); }
-        _ => {}
-    }
-}
-proof fn lemma_i16s_push(s: Seq<i16>, v: i16) ensures i16s_bytes(s.push(v)) == i16s_bytes(s) + be16(v as u16) { assert(s.push(v).drop_last() == s); }
-proof fn lemma_i32s_push(s: Seq<i32>, v: i32) ensures i32s_bytes(s.push(v)) == i32s_bytes(s) + be32(v as u32) { assert(s.push(v).drop_last() == s); }
-
-
-/// byte stream of a record sequence
-pub open spec fn recs_bytes(rs: Seq<GdsRecord>) -> Seq<u8> decreases rs.len() {
-    if rs.len() == 0 { Seq::<u8>::empty() } else { recs_bytes(rs.drop_last()) + rec_bytes(rs.last()) }
-}
-proof fn lemma_recs_push(rs: Seq<GdsRecord>, r: GdsRecord) ensures recs_bytes(rs.push(r)) == recs_bytes(rs) + rec_bytes(r) { assert(rs.push(r).drop_last() == rs); }
-
-
-// =====================================================================================================
-// POINT LISTS (gds21/src/data.rs), extracted
-// =====================================================================================================
-//@ item gds21/src/data.rs :: struct GdsPoint
-//@ end
-/// the XY payload of a point list: x0 y0 x1 y1 ...
-pub open spec fn xy_of(p: Seq<GdsPoint>, v: Seq<i32>) -> bool {
-    v.len() == 2 * p.len() && forall|k: int| 0 <= k < p.len() ==> v[2 * k] == (#[trigger] p[k]).x && v[2 * k + 1] == p[k].y
-}
-impl GdsPoint {
-//@ fn gds21/src/data.rs :: impl GdsPoint :: fn parse
-//@   ret r
-//@   sub R7 /"GdsPoint coordinate vector: Invalid number of elements"\.into\(\)/ => String::new()
-//@   spec
-//|     ensures from@.len() != 2 ==> r is Err,
-//|             from@.len() == 2 ==> r is Ok && r->Ok_0.x == from@[0] && r->Ok_0.y == from@[1],
-//@ end
-//@ fn gds21/src/data.rs :: impl GdsPoint :: fn parse_vec
-//@   ret r
-//@   sub R7 /"GdsPoint coordinate vector: Invalid number of elements"\.into\(\)/ => String::new()
-//@   let rv : Vec<GdsPoint>
-//@   spec
-//|     ensures from@.len() % 2 != 0 ==> r is Err,
-//|             from@.len() % 2 == 0 ==> r is Ok && xy_of(r->Ok_0@, from@),
-//@   loop 1
-//|             invariant rv@.len() == i, from@.len() % 2 == 0,
-//|                 forall|k: int| 0 <= k < i ==> (#[trigger] rv@[k]).x == from@[2 * k] && rv@[k].y == from@[2 * k + 1],
-//@ end
-//@ fn gds21/src/data.rs :: impl GdsPoint :: fn flatten
-//@   ret r
-//@   spec
-//|     ensures r@ == seq![self.x, self.y],
-//@ end
-//@ fn gds21/src/data.rs :: impl GdsPoint :: fn flatten_vec
-//@   ret rv
-//@   let rv : Vec<i32>
-//@   spec
-//|     requires src@.len() < 0x3fff_ffff_ffff_ffff,
-//|     ensures xy_of(src@, rv@),
-//@   loop 1 iter it
-//|             invariant rv@.len() == 2 * it.index@,
-//|                 forall|k: int| 0 <= k < it.index@ ==> rv@[2 * k] == (#[trigger] src@[k]).x && rv@[2 * k + 1] == src@[k].y,
-//@ end
-}
-/// C01 layer 1: parse_vec inverts flatten_vec (both contracts are stated over the whole sequence)
-proof fn lemma_points_roundtrip(p: Seq<GdsPoint>, q: Seq<GdsPoint>, v: Seq<i32>)
-    requires xy_of(p, v), xy_of(q, v),
-    ensures p =~= q,
-{
-    assert(p.len() == q.len());
-    assert forall|k: int| 0 <= k < p.len() implies p[k] == q[k] by { assert(p[k].x == v[2 * k] && q[k].x == v[2 * k]); }
-}
-
+//@ include units/gds_codec/spec.inc.rs
+//@ include units/gds_codec/points.inc.rs
 // =====================================================================================================
 // WRITER (gds21/src/write.rs), extracted
 // =====================================================================================================
@@ -692,26 +439,6 @@ proof fn lemma_header_roundtrip(rec: GdsRecord)
 }
 
 
-/// the content of a record, field for field: (record number, integer fields, string bytes, real fields)
-pub open spec fn content(r: GdsRecord) -> (u8, Seq<int>, Seq<u8>, Seq<f64>) {
-    match r {
-        GdsRecord::Presentation(x, y) | GdsRecord::Strans(x, y) | GdsRecord::ElemFlags(x, y) => (rec_num(r), seq![x as int, y as int], Seq::<u8>::empty(), Seq::<f64>::empty()),
-        GdsRecord::Header { version: d } | GdsRecord::Layer(d) | GdsRecord::DataType(d) | GdsRecord::TextType(d) | GdsRecord::PathType(d) | GdsRecord::Generations(d)
-        | GdsRecord::Nodetype(d) | GdsRecord::PropAttr(d) | GdsRecord::BoxType(d) | GdsRecord::TapeNum(d) | GdsRecord::Format(d) | GdsRecord::LibDirSize(d)
-        | GdsRecord::LibSecur(d) => (rec_num(r), seq![d as int], Seq::<u8>::empty(), Seq::<f64>::empty()),
-        GdsRecord::BgnLib { dates: d } => (rec_num(r), Seq::new(12, |i: int| d@[i] as int), Seq::<u8>::empty(), Seq::<f64>::empty()),
-        GdsRecord::BgnStruct { dates: d } => (rec_num(r), Seq::new(12, |i: int| d@[i] as int), Seq::<u8>::empty(), Seq::<f64>::empty()),
-        GdsRecord::TapeCode(d) => (rec_num(r), Seq::new(6, |i: int| d@[i] as int), Seq::<u8>::empty(), Seq::<f64>::empty()),
-        GdsRecord::ColRow { cols, rows } => (rec_num(r), seq![cols as int, rows as int], Seq::<u8>::empty(), Seq::<f64>::empty()),
-        GdsRecord::Width(d) | GdsRecord::Plex(d) | GdsRecord::BeginExtn(d) | GdsRecord::EndExtn(d) => (rec_num(r), seq![d as int], Seq::<u8>::empty(), Seq::<f64>::empty()),
-        GdsRecord::Xy(v) => (rec_num(r), Seq::new(v@.len(), |i: int| v@[i] as int), Seq::<u8>::empty(), Seq::<f64>::empty()),
-        GdsRecord::Mag(x) | GdsRecord::Angle(x) => (rec_num(r), Seq::<int>::empty(), Seq::<u8>::empty(), seq![x]),
-        GdsRecord::Units(x, y) => (rec_num(r), Seq::<int>::empty(), Seq::<u8>::empty(), seq![x, y]),
-        GdsRecord::LibName(s) | GdsRecord::StructName(s) | GdsRecord::StructRefName(s) | GdsRecord::String(s) | GdsRecord::RefLibs(s) | GdsRecord::Fonts(s)
-        | GdsRecord::AttrTable(s) | GdsRecord::PropValue(s) | GdsRecord::Mask(s) | GdsRecord::SrfName(s) => (rec_num(r), Seq::<int>::empty(), string_bytes(&s), Seq::<f64>::empty()),
-        _ => (rec_num(r), Seq::<int>::empty(), Seq::<u8>::empty(), Seq::<f64>::empty()),
-    }
-}
 /// the integer fields as the decoder determines them from the payload
 pub open spec fn ints_of(r: GdsRecord, b: Seq<u8>) -> Seq<int> {
     match rec_dtype(r) {
